@@ -166,6 +166,8 @@ inline void register_universe(std::vector<TypeOps>& l) {
   REGQ(Optional<vector<u8>>) REGQ(Optional<vector<string>>) REGQ(Optional<array<u32, 3>>) REGQ(Optional<pair<u8, string>>)
   REGQ(Optional<tuple<i16, string>>) REGQ(Optional<map<i32, string>>) REGQ(Optional<unordered_map<i32, u8>>)
   REGQ(Optional<Result<Err, i16>>) REGQ(Optional<Variant<u8, string>>) REGQ(Optional<S2<u8, string>>)
+  REGQ(Optional<Optional<u8>>) REGQ(Optional<Optional<string>>) REGQ(S2<Optional<Optional<string>>, u8>) REGQ(vector<Optional<Optional<i16>>>)
+  REGQ(vector<array<bool, 3>>) REGQ(Optional<array<bool, 3>>)
   REGQ(Optional<LBC<u8, 4, u8>>) REGQ(Optional<W1<i32>>) REGQ(Optional<T2<u8, string>>) REGQ(Optional<CA<u8, 2>>)
   // Result<E, K<..>>
   REGQ(Result<Err, vector<u8>>) REGQ(Result<Err, vector<string>>) REGQ(Result<Err, array<i16, 3>>) REGQ(Result<Err, pair<u8, string>>)
